@@ -596,23 +596,14 @@ for k, (key, what) in enumerate((("BYMONTH", "1..12"), ("BYHOUR", "0..23"), ("BY
       assumptions=["strtol/strtoul/atol replaced by stubs returning an arbitrary long and stepping over the digits (libc number reading trusted)",
                    "rule text is the concrete layout FREQ=DAILY;%s=n,n,n with symbolic values n" % key])
 O("C09.wly", ["C09", "C16", "C01"], "h_C09.c", "h_C09_wly",
-  "rrul_fill_wly (Gregorian scale): memory safe incl. the weekday-increment table and the time-of-day enumeration, returns <= nti and <= COUNT, every loop terminates, occurrences within [DTSTART, UNTIL] - for every valid DTSTART, every well-formed container state, INTERVAL 1..64",
-  ["rrul_fill_wly"], dfcc=True, loop_contracts=True, with_unwind=True,
-  replace=["bi447_next", "bui31_next", "echs_scale_ndim", "echs_scale_wday", "echs_instant_rescale", "make_enum"],
-  replace_status={"bi447_next": "discharged by C19.bi447_next", "bui31_next": "discharged by C19.bui31_next",
-                  "echs_scale_ndim": "discharged for the Gregorian scale by C15.dispatch/C15.greg", "echs_scale_wday": "discharged by C15.dispatch/C15.greg",
-                  "echs_instant_rescale": "identity on the Gregorian scale (C15.rescale.*)", "make_enum": "discharged by C09.make_enum (1..24/60/61 entries) for rules the parser lets through (C09.snarf_rrule.*)"},
-  solver=["minisat"], mem_gb=28, timeout={"quick": 1500, "thorough": 7200}, replay=False, replay_note="callees replaced by contracts",
-  defines=["-DRR_INTER_MAX=64U"])
-O("C09.wly.i100", ["C09", "C16", "C01"], "h_C09.c", "h_C09_wly",
-  "rrul_fill_wly (Gregorian scale): memory safe incl. the weekday-increment table and the time-of-day enumeration, returns <= nti and <= COUNT, every loop terminates, occurrences within [DTSTART, UNTIL] - for every valid DTSTART, every well-formed container state, INTERVAL 1..64",
+  "rrul_fill_wly (Gregorian scale): memory safe incl. the weekday-increment table and the time-of-day enumeration, returns <= nti and <= COUNT, every loop terminates, occurrences within [DTSTART, UNTIL] - for every valid DTSTART, every well-formed container state, and one step advances the day cursor by exactly 7 * INTERVAL days (the month/year carry keeps the denoted day), INTERVAL 1..100",
   ["rrul_fill_wly"], dfcc=True, loop_contracts=True, with_unwind=True,
   replace=["bi447_next", "bui31_next", "echs_scale_ndim", "echs_scale_wday", "echs_instant_rescale", "make_enum"],
   replace_status={"bi447_next": "discharged by C19.bi447_next", "bui31_next": "discharged by C19.bui31_next",
                   "echs_scale_ndim": "discharged for the Gregorian scale by C15.dispatch/C15.greg", "echs_scale_wday": "discharged by C15.dispatch/C15.greg",
                   "echs_instant_rescale": "identity on the Gregorian scale (C15.rescale.*)", "make_enum": "discharged by C09.make_enum (1..24/60/61 entries) for rules the parser lets through (C09.snarf_rrule.*)"},
   solver=["minisat", "kissat", "cadical"], mem_gb=28, timeout={"quick": 1500, "thorough": 7200}, replay=False, replay_note="callees replaced by contracts",
-  defines=["-DRR_INTER_MAX=100U"], tiers=["thorough"])
+  defines=["-DRR_INTER_MAX=100U"])
 O("C09.Hly", ["C09", "C16", "C01"], "h_C09.c", "h_C09_Hly",
   "rrul_fill_Hly: memory safe incl. the minute/second enumeration and the BYYEARDAY walk, returns <= nti and <= COUNT, every loop terminates (weekday stays in Mon..Sun, the cursor strictly advances), occurrences within [DTSTART, UNTIL] - for every valid DTSTART, every well-formed container state, INTERVAL 1..1000 (steps of up to 41 days)",
   ["rrul_fill_Hly"], dfcc=True, loop_contracts=True, with_unwind=True,
